@@ -140,6 +140,11 @@ def design_flat(r, name):
         a_members.append(("g", "i64"))
     if extra:
         a_members.append(("x", "i64"))
+    # "narrow instruction first, broad #[map(..)] as the fallback": of two default instructions that both apply to a
+    # conversion the one written first is in force (from: the narrow one; into / into_existing: only the broad one applies)
+    renames = [f for f in s_fields if f["kind"] == "rename"]
+    if extra and not fallible and renames and r.random() < 0.4:
+        r.choice(renames)["narrow"] = r.choice(["from", "from_owned+from_ref", "into"])
     # --- types
     if a_named:
         m.types.append(f"{DERIVES} pub struct A {{ " + ", ".join(f"pub {nm}: {ty}" for nm, ty in a_members) + " }")
@@ -174,6 +179,10 @@ def design_flat(r, name):
             # most-specific pick: in a fallible conversion the `try_` instruction wins over the plain one written first
             fa.append("#[map(x)]")
             fa.append(f"#[try_map({tgt})]")
+        elif f["kind"] == "rename" and f.get("narrow") == "into":
+            fa += [f"#[into(x)]", f"#[into_existing(x)]", f"#[map({tgt})]"]
+        elif f["kind"] == "rename" and f.get("narrow"):
+            fa += [f"#[{nm}({tgt})]" for nm in f["narrow"].split("+")] + ["#[map(x)]"]
         elif f["kind"] == "rename":
             fa.append(f"#[map({tgt})]")
         elif f["kind"] == "astype":
@@ -240,6 +249,8 @@ def design_flat(r, name):
                 continue
             if f["kind"] == "action":
                 d[f["aname"]] = sval[f["sname"]] + f["add"] + (5 if f["usevar"] else 0)
+            elif f.get("narrow"):
+                d["x"] = sval[f["sname"]]
             else:
                 d[f["aname"]] = sval[f["sname"]]
         if struct_ghost:
@@ -421,9 +432,57 @@ def design_two_parents(r, name):
     return m
 
 
+def design_flat_skew(r, name):
+    """named struct built from a positional counterpart (`as ()`), with members that leave no line in the initialiser
+    (bare `#[ghost]`, supplied by `..update`) ahead of members whose expression uses `~` without naming an index: `~` is
+    the counterpart's member at the *declaration* position, not at the number of lines written so far (From only)"""
+    m = Module(name, "flat")
+    n = r.randrange(2, 6)
+    fallible = r.random() < 0.25
+    pre, err = ("try_", ", String") if fallible else ("", "")
+    kinds = [r.choice(["bare", "bare", "ghostval", "implicit", "implicit", "plain", "explicit"]) for _ in range(n)]
+    if "bare" not in kinds[:-1]:
+        kinds[r.randrange(n - 1)] = "bare"
+    if not any(k == "implicit" for k in kinds[kinds.index("bare") + 1:]):
+        kinds[r.randrange(kinds.index("bare") + 1, n)] = "implicit"
+    muls = [r.randrange(2, 6) for _ in range(n)]
+    tgt = [r.randrange(n) for _ in range(n)]
+    m.types.append(f"{DERIVES} pub struct A(" + ", ".join("pub i64" for _ in range(n)) + ");")
+    aval = [10 * (i + 1) + 1 for i in range(n)]
+    fsrc, exp = [], []
+    for k in range(n):
+        kd = kinds[k]
+        if kd == "bare":
+            att, e = r.choice(["#[ghost] ", "#[o2o(ghost)] ", "#[o2o(ghost_owned)] #[o2o(ghost_ref)] "]), 800 + k
+        elif kd == "ghostval":
+            att, e = f"#[ghost({{ {700 + k} }})] ", 700 + k
+        elif kd == "implicit":
+            ins = r.choice(["from", "map", "from"])
+            att, e = f"#[{ins}(~ * {muls[k]})] ", aval[k] * muls[k]
+        elif kd == "explicit":
+            att, e = f"#[from({tgt[k]}, ~ * {muls[k]})] ", aval[tgt[k]] * muls[k]
+        else:
+            att, e = "", aval[k]
+        fsrc.append(f"{att}pub s{k}: i64")
+        exp.append(e)
+    item = f"#[{pre}from(A as (){err} | ..mk_base())] pub struct S {{ " + ", ".join(fsrc) + " }"
+    m.derive_src = item
+    m.types.append(f"#[derive(o2o)] {DERIVES} " + item)
+    m.types.append("pub fn mk_base() -> S { S { " + ", ".join(f"s{k}: {800 + k}" for k in range(n)) + " } }")
+    sv = ("named", "S", [(f"s{k}", exp[k]) for k in range(n)])
+    a_lit = lit(("tuple", "A", aval))
+    if fallible:
+        m.tests.append(("from_owned", f'let a = {a_lit}; let r: Result<S, String> = S::try_from(a); println!("{name} from_owned {{:?}}", r);', dbg(("ok", sv))))
+        m.tests.append(("from_ref", f'let a = {a_lit}; let r: Result<S, String> = S::try_from(&a); println!("{name} from_ref {{:?}}", r);', dbg(("ok", sv))))
+    else:
+        m.tests.append(("from_owned", f'let a = {a_lit}; let r = S::from(a); println!("{name} from_owned {{:?}}", r);', dbg(sv)))
+        m.tests.append(("from_ref", f'let a = {a_lit}; let r = S::from(&a); println!("{name} from_ref {{:?}}", r);', dbg(sv)))
+    return m
+
+
 def design_flat_any(r, name):
     t = r.random()
-    return design_flat_perm(r, name) if t < 0.15 else design_flat_parent(r, name) if t < 0.3 else design_flat(r, name)
+    return design_flat_skew(r, name) if t < 0.07 else design_flat_perm(r, name) if t < 0.15 else design_flat_parent(r, name) if t < 0.3 else design_flat(r, name)
 
 
 # ------------------------------------------------------------------------------------------------
@@ -979,7 +1038,8 @@ def design_generic(r, name):
 def design_subst(r, name):
     """the mix used for C10: programs whose inline expressions use `~` / `@` (flat structs with actions, enums whose
     payload expressions designate another position)"""
-    return design_enum(r, name) if r.random() < 0.45 else design_flat(r, name)
+    t = r.random()
+    return design_enum(r, name) if t < 0.4 else design_flat_skew(r, name) if t < 0.55 else design_flat(r, name)
 
 
 def design_wf(r, name):
